@@ -54,6 +54,7 @@ def _one(job):
     out = {'idx': idx, 'engine': engine, 'run_seed': rs, 'digest': r['digest'], 'nontrivial': r['nontrivial'],
            'counters': r['counters'], 'violations': r['violations'], 'steps': r['steps'],
            'sim_seconds': r['sim_seconds'], 'wall': r['wall'], 'sched_keys': r['sched_keys'],
+           'point_lines': r['point_lines'],
            'rejects': r['rejects'], 'nrecords': len(r['records']), 'calls_by_name': r['calls_by_name'],
            'soft': r['soft']}
     if r['violations'] or keep_sample or job[3] == 'plan':
@@ -99,7 +100,7 @@ def keystr(key):
 
 
 # ---------------------------------------------------------------- reporting
-def report_violations(results, seed, tier, do_minimise=True, max_keys=8):
+def report_violations(results, seed, tier, do_minimise=True, max_keys=8, max_report=12):
     """Group, minimise, write replay files, verify them in a fresh process.
     Returns (n_new, n_known, harness_trouble)."""
     from . import minimise as mz
@@ -149,7 +150,10 @@ def report_violations(results, seed, tier, do_minimise=True, max_keys=8):
         with ProcessPoolExecutor(min(8, len(jobs)), mp_context=mp.get_context('fork'), initializer=_init_worker) as ex:
             for (k, r, v, cnt), res in zip(todo[:max_keys], ex.map(_min_job, jobs)):
                 mins[k] = res
-    for k, r, v, cnt in todo:
+    if len(todo) > max_report:
+        print('NOTE: %d violation classes found; the first %d are replayed and reported individually, the rest: %s'
+              % (len(todo), max_report, ', '.join(keystr(t[0]) for t in todo[max_report:])[:1500]))
+    for k, r, v, cnt in todo[:max_report]:
         ks = keystr(k)
         plan, vmin, trials = r['plan'], v, 0
         if k in mins and mins[k][1] is not None:
@@ -189,6 +193,7 @@ def write_evidence(results, seed, tier, wall, nviol, extra=None):
     digests = set()
     nt = set()
     sched = set()
+    plines = set()
     steps = 0
     simsec = 0.0
     per_engine = collections.Counter()
@@ -207,6 +212,8 @@ def write_evidence(results, seed, tier, wall, nviol, extra=None):
             nt.add(r['digest'])
         for k in r['sched_keys']:
             sched.add(tuple(k))
+        for k in r['point_lines']:
+            plines.add(tuple(k))
         steps += r['steps']
         simsec += r['sim_seconds']
         per_engine[r['engine']] += 1
@@ -254,6 +261,8 @@ def write_evidence(results, seed, tier, wall, nviol, extra=None):
             'clock_boundary_crossed_between_reads': {k: tot.get('clock_cross.' + k, 0) for k in ('minute', 'hour', 'day')},
         },
         'distinct_schedule_points': len(sched),
+        'distinct_source_lines_used_as_fault_point': len(plines),
+        'executable_lines_in_pymeeus_functions': runner.BOOT.get('fn_lines', 0),
         'schedule_point_measure': 'distinct (pre-empted callable, function, line, intruding callable) tuples',
         'preempted_in_module': {k[11:]: v for k, v in sorted(tot.items()) if k.startswith('preempt_in.')},
         'reach_probes': {k[6:]: v for k, v in sorted(tot.items()) if k.startswith('probe.')},
